@@ -308,7 +308,9 @@ int parse_instruction_8008(AsmContext *asm_context, char *instr)
           if (operand_count != 1) { continue; }
           if (operands[0].type == OPERAND_NUMBER)
           {
-            if (operands[0].value >= 0xc0 ||
+            // RST: 00 AAA 101, the subroutine address is AAA * 8 (0x00 to 0x38).
+            if (operands[0].value < 0 ||
+                operands[0].value > 0x38 ||
                (operands[0].value & 0x7) != 0)
             {
               print_error(
